@@ -401,8 +401,8 @@ Example C10_exp_example :
   let s := e_final (ex_cfg 0) (e_init (ex_cfg 0)) ex_ops in
   e_active s = [3; 4] /\ e_getpos s 3 = Some [32; 48] /\ e_getpos s 4 = Some [44; 6] /\ e_getpos s 1 = None /\
   length (e_store s) = 3%nat /\
-  nth 3 (e_run (ex_cfg 0) (e_init (ex_cfg 0)) ex_ops) [] = [1; 0; 2; 784; -9; 3; 3; 1; 0; 16; 2; 36; 16; 3; 32; 48] /\
-  nth 7 (e_run (ex_cfg 0) (e_init (ex_cfg 0)) ex_ops) [] = [1; 0; 3; 800; -9; 3; 3; 1; 12; 28; 3; 32; 48; 4; 44; 6].
+  nth 3 (e_run (ex_cfg 0) (e_init (ex_cfg 0)) ex_ops) [] = [1; 0; 2; 784; -9; 3; 3; 1; 0; 16; 2; 36; 16; 3; 32; 48; -9; 1; 2; 3] /\
+  nth 7 (e_run (ex_cfg 0) (e_init (ex_cfg 0)) ex_ops) [] = [1; 0; 3; 800; -9; 3; 3; 1; 12; 28; 3; 32; 48; 4; 44; 6; -9; 1; 3; 4].
 Proof. vm_compute. repeat split; reflexivity. Qed.
 
 (* the same agent 4 in the 10-operation history from capacity 0 and in its 1-operation projection from capacity 100 *)
